@@ -268,10 +268,19 @@ type C08BCase struct {
 }
 
 func c08BGen(t *rapid.T) C08BCase {
-	return C08BCase{Conns: rapid.IntRange(4, 16).Draw(t, "conns"), Ops: rapid.IntRange(100, 600).Draw(t, "ops"), Kind: rapid.IntRange(0, 7).Draw(t, "kind"), Pad: pick(t, "pad", 0, 16, 1024)}
+	return C08BCase{Conns: rapid.IntRange(4, 16).Draw(t, "conns"), Ops: rapid.IntRange(100, 600).Draw(t, "ops"), Kind: rapid.IntRange(0, 8).Draw(t, "kind"), Pad: pick(t, "pad", 0, 16, 1024)}
 }
 
 func c08BRun(c C08BCase, st *kit.Stats) error {
+	stalls := kit.Stalls.Load()
+	err := c08BRunInner(c, st)
+	if err == nil {
+		err = kit.StallError(stalls)
+	}
+	return err
+}
+
+func c08BRunInner(c C08BCase, st *kit.Stats) error {
 	emu := kit.StartEmu("")
 	defer emu.Stop()
 	admin := emu.Dial()
@@ -291,6 +300,9 @@ func c08BRun(c C08BCase, st *kit.Stats) error {
 	}
 	if c.Kind == 7 {
 		return c08Torn(c, emu, st)
+	}
+	if c.Kind == 8 {
+		return c08Derived(c, emu, st)
 	}
 	var wg sync.WaitGroup
 	errs := make(chan error, c.Conns)
@@ -634,6 +646,115 @@ func c08Torn(c C08BCase, emu *kit.Emu, st *kit.Stats) error {
 	}
 	st.ClassN("concurrent-commands", ops*(writers+2*readers))
 	st.Class("kind:7")
+	st.NonTrivial(fmt.Sprintf("%+v", c), c)
+	return nil
+}
+
+// c08Derived: commands that derive one key from others (BITOP, COPY, the STORE forms) or act on several keys at
+// once (DEL, EXISTS) run against writers that keep an invariant over their operands: a large string that is
+// always uniform, a marker member that is always in exactly one of two large sets, three keys that exist
+// together or not at all. Whatever the derived command saw, it saw it at one instant, so the invariant holds
+// for its result.
+func c08Derived(c C08BCase, emu *kit.Emu, st *kit.Stats) error {
+	n := 32<<10 + c.Pad*64
+	zero, ones := strings.Repeat("\x00", n), strings.Repeat("\xff", n)
+	admin := emu.Dial()
+	admin.Do("SET", "big", zero)
+	members := 2000 + c.Pad*2
+	for _, k := range []string{"s1", "s2"} {
+		for lo := 0; lo < members; lo += 500 {
+			a := []string{"SADD", k}
+			for i := lo; i < lo+500 && i < members; i++ {
+				a = append(a, k+"-"+strconv.Itoa(i))
+			}
+			admin.Do(a...)
+		}
+	}
+	admin.Do("SADD", "s1", "marker")
+	admin.Do("MSET", "g1", "1", "g2", "1", "g3", "1")
+	ops := c.Ops / 4
+	var wg sync.WaitGroup
+	errs := make(chan error, 16)
+	var stop atomic.Bool
+	fail := func(f string, a ...any) {
+		select {
+		case errs <- fmt.Errorf(f, a...):
+		default:
+		}
+		stop.Store(true)
+	}
+	spawn := func(fn func(conn *kit.Conn, j int)) {
+		conn := emu.Dial()
+		wg.Add(1)
+		go func() {
+			defer wg.Done()
+			for j := 0; j < ops && !stop.Load(); j++ {
+				fn(conn, j)
+			}
+		}()
+	}
+	uniform := func(s string) bool { return len(s) == 0 || strings.Count(s, s[:1]) == len(s) }
+	// writers
+	spawn(func(conn *kit.Conn, j int) {
+		if j%2 == 0 {
+			conn.Do("SET", "big", ones)
+		} else {
+			conn.Do("SETRANGE", "big", "0", zero)
+		}
+	})
+	spawn(func(conn *kit.Conn, j int) {
+		if j%2 == 0 {
+			conn.Do("SMOVE", "s1", "s2", "marker")
+		} else {
+			conn.Do("SMOVE", "s2", "s1", "marker")
+		}
+	})
+	spawn(func(conn *kit.Conn, j int) {
+		if j%2 == 0 {
+			conn.Do("DEL", "g1", "g2", "g3")
+		} else {
+			conn.Do("MSET", "g3", "1", "g2", "1", "g1", "1")
+		}
+	})
+	// derived commands
+	for r := 0; r < 1+c.Conns/6; r++ {
+		r := r
+		spawn(func(conn *kit.Conn, j int) {
+			dst := "d" + strconv.Itoa(r)
+			switch j % 5 {
+			case 0:
+				conn.Do("BITOP", "NOT", dst, "big")
+				if v, err := conn.Do("GET", dst); err == nil && v.K == kit.KBulk && (len(v.S) != n || !uniform(v.S)) {
+					fail("BITOP NOT of a %d-byte string that is always all 0x00 or all 0xFF produced a %d-byte result that is not uniform: it read a half-applied write", n, len(v.S))
+				}
+			case 1:
+				conn.Do("COPY", "big", dst, "REPLACE")
+				if v, err := conn.Do("GET", dst); err == nil && v.K == kit.KBulk && (len(v.S) != n || !uniform(v.S)) {
+					fail("COPY of a %d-byte string that is always all 0x00 or all 0xFF produced a %d-byte copy that is not uniform", n, len(v.S))
+				}
+			case 2:
+				if v, err := conn.Do("SUNIONSTORE", dst, "s1", "s2"); err == nil && v.K == kit.KInt && v.I != int64(2*members+1) {
+					fail("SUNIONSTORE of two sets between which one member is moved back and forth with SMOVE stored %d members, the union always has %d", v.I, 2*members+1)
+				}
+			case 3:
+				if v, err := conn.Do("SINTERCARD", "2", "s1", "s2"); err == nil && v.K == kit.KInt && v.I != 0 {
+					fail("SINTERCARD of two sets that never share a member (one member is moved between them with SMOVE) replied %d", v.I)
+				}
+			default:
+				if v, err := conn.Do("EXISTS", "g1", "g2", "g3"); err == nil && v.K == kit.KInt && v.I != 0 && v.I != 3 {
+					fail("EXISTS g1 g2 g3 replied %d although the three keys are only ever created (MSET) and removed (DEL) together", v.I)
+				}
+			}
+		})
+	}
+	wg.Wait()
+	select {
+	case err := <-errs:
+		return err
+	default:
+	}
+	st.ClassN("concurrent-commands", ops*(4+c.Conns/6))
+	st.Class("kind:8")
 	st.NonTrivial(fmt.Sprintf("%+v", c), c)
 	return nil
 }
